@@ -18,7 +18,7 @@ RULE = ('aromatic / aromatisable molecules: corpus, curated, repository literals
         'no valence error, same connectivity/formula/charges/radicals/per-atom H, idempotence, thiele(kekule(x)) == x), all '
         'enumerated Kekule forms valid, distinct, equal in number to the perfect matchings (pure C / pyridine-N systems) and '
         'aromatising to one form, atom-wise equality of the aromatic form under renumbering, RDKit resonance-equivalence. '
-        'non-trivial = >= 1 aromatic ring; distinct by canonical string')
+        'the same conversions on one object with drawn reads in between; canonicalize(keep_kekule=True) against canonicalize(). non-trivial = >= 1 aromatic ring; distinct by canonical string')
 ASSUMPTIONS = ['per-atom hydrogen clause asserted with thiele(fix_tautomers=False); the default (True) moves H between ring N atoms by design',
                'enumerated-forms clause not claimed for blocks with an unsaturated four-membered ring (recorded gap), counted',
                'ring systems whose minimum cycle basis is not unique are routed to the known finding on SSSR-dependent aromatisation',
